@@ -77,7 +77,7 @@ def Normalization.normalize (ext : NormExt) : Normalization → Position → Byt
   | .replace (.char c) rep, _, t => some (.ok (normalizeReplaceLiteral (encodeChar c) rep t))
   | .replace (.string s) rep, _, t => some (.ok (normalizeReplaceLiteral s rep t))
   | .replace (.regex p) rep, _, t => (ext.replaceAll p rep t).map .ok
-  | .charsMap m, _, t => (ext.graphemes t).map fun gs => .ok (m.normalize Generated.CHARSMAP_GRAPHEME_LIMIT t gs)
+  | .charsMap m, _, t => (ext.graphemes t).map fun gs => .ok (m.normalize t gs)
   | .conditional cond inner, pos, t =>
     if (match cond with
         | .startOfText => pos.start == 0
